@@ -14,7 +14,7 @@ import (
 
 // C09 — effective DNS rewrites apply every matching exception, in any order.
 
-var c09ShapesFull = []string{"1.1.1.1", "2.2.2.2", "::1", "a.example", "b.example", "NOERROR;CNAME;a.example", "NOERROR;CNAME;c.example", "FORMERR;;", "NOTIMP;;", "YXDOMAIN;;", "NXDOMAIN", "REFUSED", "NOERROR", "NOERROR;;", "NOERROR;NS;x",
+var c09ShapesFull = []string{"1.1.1.1", "2.2.2.2", "::1", "a.example", "b.example", "NOERROR;CNAME;a.example", "NOERROR;CNAME;c.example", "FORMERR;;", "NOTIMP;;", "YXDOMAIN;;", "NXDOMAIN", "REFUSED", "NOERROR", "NOERROR;;", "NOERROR;NS;x", "NOERROR;URI;x",
 	"NOERROR;TXT;hello", "NOERROR;MX;10 m.x", "NOERROR;SRV;1 2 3 s.x", "NOERROR;HTTPS;1 h.x alpn=h2", "",
 	// near misses of the structured values: one field differs
 	"NOERROR;HTTPS;1 h.x alpn=h3", "NOERROR;HTTPS;1 h.x", "NOERROR;SVCB;1 h.x alpn=h2", "NOERROR;MX;20 m.x", "NOERROR;MX;10 n.x", "NOERROR;SRV;1 2 4 s.x", "NOERROR;TXT;Hello", "NOERROR;PTR;p.x",
